@@ -258,7 +258,7 @@ def write_evidence(prop, mod, ctx, tier, seed, wall, status, listed, unlisted, m
         from .loader import FP, load
         from . import reach
 
-        cov["fp_events"] = dict(FP.events)
+        cov["fp_events"] = dict(ctx.fp) or dict(FP.events)
         cov["reached_lines"] = reach.summarise(ctx.reach, load(), getattr(mod, "ANCHORS", None))
     except Exception as e:  # noqa: BLE001
         cov["reached_lines"] = "unavailable: %r" % (e,)
